@@ -93,4 +93,8 @@ def plan(tier, seed):
               for i, part in enumerate(split(sregs, 14))]
     cl = [r for r in regs if 'F2I' in r or 'I2F' in r][:30] + [r for r in regs if 'I2I' in r][:20]
     units.append(Unit('C04-clang', 'clang', 'props/C04.h', cl, rc_cases=cases, enum_max=2 ** 16, chunk=10))
-    return dict(units=units, rule=RULE, assumptions=['MPFR as the reference for correct rounding to float/double/long double'])
+    p = dict(units=units, rule=RULE, assumptions=['MPFR as the reference for correct rounding to float/double/long double'])
+    if not quick:  # coverage-guided campaign over a slice of the same sites (thorough tier only)
+        fz = [r for r in regs if 'F2I' in r][::4][:8] + [r for r in regs if 'I2F' in r][::4][:8] + [r for r in regs if 'I2IX' in r][:8] + [r for r in regs if 'I2I<' in r][::40][:10]
+        p = with_fuzz(p, 'C04', 'props/C04.h', fz, tier, 0, 1500000, max_len=200, chunk=6)
+    return p
